@@ -1,6 +1,7 @@
 import Dashu.Props.C15Values
 import Dashu.Props.C15GenEuclid
 import Dashu.Props.C15Link
+import Dashu.Props.C15LinkRem
 -- one audit module for the three round-5 theorem modules (one `lean` start instead of three)
 #print axioms Dashu.Props.C15Values.opAddSub_eq_review
 #print axioms Dashu.Props.C15Values.fDivRemEuclid_pair
@@ -35,10 +36,16 @@ import Dashu.Props.C15Link
 #print axioms Dashu.Props.C15Values.operator_eq_context_mul
 #print axioms Dashu.Props.C15Values.operator_eq_context_addsub
 #print axioms Dashu.Props.C15Values.operator_eq_context_addsub_nonzero
+#print axioms Dashu.Props.C15Values.operator_eq_context_addsub_table
 #print axioms Dashu.Props.C15Values.operator_eq_context_div
 #print axioms Dashu.Props.C15Values.operator_eq_context_rem
+#print axioms Dashu.Props.C15Values.operator_eq_context_mul_table
+#print axioms Dashu.Props.C15Values.operator_eq_context_div_table
 #print axioms Dashu.Props.C15Link.rbig_euclid_method_forms
 #print axioms Dashu.Props.C15Link.relaxed_euclid_method_forms
 #print axioms Dashu.Props.C15GenEuclid.gen_primitive_forms_are_model
 #print axioms Dashu.Props.C15GenEuclid.gen_assign_by_taking_is_model
 #print axioms Dashu.Props.C15GenEuclid.fromInt_spec
+#print axioms Dashu.Props.C15LinkRem.ringRemainders_spec
+#print axioms Dashu.Props.C15LinkRem.remSignif_greater_is_ring
+#print axioms Dashu.Props.C15LinkRem.ring_zero_divisor
